@@ -61,6 +61,7 @@ while the word **local** refers to within the current coordinate system defined 
 current grid.
 """
 # ruff: noqa: F401
+import re
 from typing import Optional, Tuple
 
 from armi.reactor.grids.axial import AxialGrid
@@ -90,7 +91,12 @@ def locatorLabelToIndices(label: str) -> Tuple[int, int, Optional[int]]:
 
     If there are only i,j  indices, make the last item None
     """
-    intVals = tuple(int(idx) for idx in label.split("-"))
+    # indices are separated by single dashes; a dash that opens the label or directly follows a separator is
+    # the sign of a negative index (``f"{-1:03d}"`` is ``"-01"``)
+    match = re.fullmatch(r"(-?\d+)(?:-(-?\d+))*", label)
+    if match is None:
+        raise ValueError(f"Invalid locator label: {label!r}")
+    intVals = tuple(int(idx) for idx in re.findall(r"(?:^|(?<=\d)-)(-?\d+)", label))
     if len(intVals) == 2:
         intVals = (intVals[0], intVals[1], None)
     return intVals
